@@ -245,6 +245,10 @@ func (b *assignmentBuilder) createWithConverter(lhs, rhs bmodel.Node, converter 
 			if !ok {
 				return nil
 			}
+			if !util.IsPtr(argNode.ExprType()) && !isAddressable(argNode) {
+				// The argument will be written as &expr.
+				return nil
+			}
 		}
 		convNode := bmodel.NewConverterNode(argNode, converter)
 		casted, _ := b.castNode(lhs.ExprType(), convNode)
@@ -262,6 +266,20 @@ func (b *assignmentBuilder) createWithConverter(lhs, rhs bmodel.Node, converter 
 
 	logger.Warnf("%v: no assignment for %v [%v]", posStr, lhsExpr, b.imports.TypeName(lhs.ExprType()))
 	return gmodel.NoMatchField{LHS: lhsExpr}, nil
+}
+
+// isAddressable reports whether the Go expression of the node may be the operand of &:
+// a variable, or a field selected from an addressable struct or through a pointer.
+func isAddressable(n bmodel.Node) bool {
+	switch v := n.(type) {
+	case bmodel.RootNode:
+		return true
+	case bmodel.StructFieldNode:
+		parent := v.Parent()
+		return util.IsPtr(parent.ExprType()) || isAddressable(parent)
+	default:
+		return false
+	}
 }
 
 // createWithMapper creates an assignment for the given lhs and rhs nodes using the
